@@ -80,6 +80,18 @@ def r20_1(ck: Check) -> None:
         ck.ok("R20.1", "LocalPeer.disconnect unregisters, closes and reports exactly the given peer", "other connections are untouched", hp[0].loc)
     else:
         ck.violated("R20.1", "LocalPeer.disconnect unregisters, closes and reports exactly the given peer", "%s" % [e.describe()[:100] for e in hp], d.fi.loc)
+    # ... and does unregister and close it: a socket that stays registered after its connection was given up is reported by the selector
+    # for ever (a busy event loop), one that stays open leaks a descriptor per misbehaving peer until accept() fails outside every handler
+    peer_sock = ("a", ("v", d.fi.params[1]), "sock")
+    for meth, recv in (("unregister", None), ("close", peer_sock)):
+        calls_ = [e for e in d.events if e.kind == "call" and e.parts and e.parts[0][0] == "a" and e.parts[0][2] == meth and not e.chain
+                  and ((recv is not None and e.parts[0][1] == recv) or (recv is None and e.term[2] == (peer_sock,)))]
+        construct = "LocalPeer.disconnect: the peer's socket is %s" % ("unregistered from the selector" if meth == "unregister" else "closed")
+        if calls_ and not residual(calls_[0], ()):
+            ck.ok("R20.1", construct, "", calls_[0].loc)
+        else:
+            ck.violated("R20.1", construct, "no unconditional %s of remote_peer.sock — the connection of a misbehaving peer is given up in the books "
+                        "but its socket stays %s" % (meth, "registered: the selector keeps reporting it" if meth == "unregister" else "open"), d.fi.loc)
     # the book-keeping is reached: between the start of disconnect and handle_peer_disconnected only the recorded steps (unregister, close)
     # may fail under the same swallowing handler - whatever else fails there is swallowed TOGETHER WITH the book-keeping, and the peer
     # stays filed as connected although its socket is gone (the next send to it raises in a manager step: R20.15's territory)
@@ -505,6 +517,16 @@ def r20_7(ck: Check) -> None:
     st = ck.summ("skepticoin.networking.manager.NetworkManager.step", 0)
     calls = [e for e in st.events if e.kind == "call" and q in e.targets]
     nb = [e for e in s.events if e.kind == "call" and e.parts and e.parts[0][0] == "a" and e.parts[0][2] == "setblocking" and e.term[2] == (C(False),)]
+    acc = ck.summ(LPQ + "handle_incoming_connection", 0)
+    nba = [e for e in acc.events if e.kind == "call" and e.parts and e.parts[0][0] == "a" and e.parts[0][2] == "setblocking" and e.term[2] == (C(False),)
+           and not residual(e, ())]
+    reg = [e for e in acc.events if e.kind == "call" and e.parts and e.parts[0][0] == "a" and e.parts[0][2] == "register"]
+    construct = "an accepted socket is non-blocking before it is registered (a peer that does not read cannot make a send wait)"
+    if nba and reg and nba[0].seq < reg[0].seq:
+        ck.ok("R20.7", construct, "", nba[0].loc)
+    else:
+        ck.violated("R20.7", construct, "setblocking(False) missing, conditional or late on the accepted connection: once the peer's receive window is "
+                    "full, send() blocks the single event-loop thread for every connection", acc.fi.loc)
     if calls and nb and dial and nb[0].seq < dial[0].seq:
         ck.ok("R20.7", "the dialled socket is non-blocking before the connect (the loop never waits on one peer)", "", nb[0].loc)
     else:
